@@ -11,3 +11,5 @@ cd /verif
 ./check "$ID" "$TIER"; RC=$?
 echo "mutate: $ID $(basename "$PATCH") exit=$RC"
 exit $RC
+# evidence/ holds the records of clean-tree runs only: drop what the runs against a modified tree wrote
+git -C /verif checkout -- evidence/ 2>/dev/null
